@@ -35,6 +35,11 @@ CHECK = {
     'can overwrite hidden cursors/caches, so histories are also explored with nothing indexed in between',
     'sort beyond the BFS bound: all permutations to length 8 (9 thorough), all 0/1 patterns to length 12 (14), enumerated families '
     '(rotations, organ-pipe, interleaved/consecutive runs, single transpositions of sorted and reversed, periodic few-valued) to length 64 (100), each under sort() and sort_by(gt)',
+    'search-by-value calls with an own element (rem(x,get(x,k)), mem(x,get(x,k))) are part of every alphabet: the FIRST equal element goes whichever was passed',
+    'cross-type assignment: A = assign(Array/List built with ANOTHER element type (Int, Probe, Blob20 = 20-byte plain struct, String) holding 0..3 elements, A): element type and contents '
+    'must be the source\'s afterwards and the old Probe elements finalised exactly once (ledger), in every state',
+    'Tuple sources that hold one object twice, (a,a) (a,a,b) (a,b,a): assign into a fresh and a non-empty Array/List and new(kind,Int,a,a,b) go through len/get and must work (run in a forked '
+    'child, 3 s limit, label .../from-tuple-with-repeated-object/does-not-terminate); concat from such a Tuple iterates it and hangs on the pinned tree (D16 family) and is not offered',
     'a Tuple holding the same object twice is a separate opt-in dimension (instance tuple-same-object, known defect D16 of C11)',
     'white-box view obtained by compiling the repository\'s own Array.c and List.c into the harness; one instance runs black-box',
     'gcc/clang, glibc and the sanitizer run-times are trusted',
